@@ -168,8 +168,8 @@ pub fn spec() -> PropertySpec {
         level: "exploration",
         rule: "One upload per run against the real server in simulation. Enumerated stage: the full cross product S in {0,1,100,65536} x M in {0,1,S-1,S,S+1,70000,2^63,2^64-1} x L in {0,1,S-1,S,S+1,M-1,M,M+1,M+2} (clamped to 200 KiB) x {declared, undeclared} x {Expect, none} x {GetBodyAndReprocess(M), Request::recv_body(M)} x {cache dir, none} = 4608 cells, each run several times under different fragmentation / short-I/O / scheduling draws; sampled stage: S, M drawn freely, L within +-2 of 0, S, M. Clients that send Expect wait for the interim response (a lost 100 is a quiescence-detected deadlock). Oracle: reference decision table (in-memory hand-over iff declared L <= S, ask first otherwise, accept iff L <= M with byte-for-byte equal body, 413 without a second handler run iff L > M), resource invariants from the simulated file layer (bytes written to a cache file <= M+1, nothing written for a declared L > M, no in-memory body above S). distinct = the cell; runs/cell vary the schedule.",
         scenarios: vec![
-            Scenario { name: "c09.cross_product", property: "C09", func: cross_product, runs_quick: 4608 * 3, runs_thorough: 4608 * 120, doc: "full cross product" },
-            Scenario { name: "c09.sampled", property: "C09", func: sampled, runs_quick: 12_000, runs_thorough: 800_000, doc: "free S, M; L near the boundaries" },
+            Scenario { name: "c09.cross_product", property: "C09", func: cross_product, runs_quick: 4608 * 12, runs_thorough: 4608 * 400, doc: "full cross product" },
+            Scenario { name: "c09.sampled", property: "C09", func: sampled, runs_quick: 150_000, runs_thorough: 4_000_000, doc: "free S, M; L near the boundaries" },
         ],
         required_probes: vec!["probe.undeclared_over_limit", "probe.declared_exactly_at_limit", "probe.limit_u64_max_undeclared"],
         components: components_server(),
